@@ -2,7 +2,43 @@
 import tftp_common as T
 from core import Judgement
 from props import tftp_base as B
-from props.tftp_base import env_of, worker_setup, run_impl, shrink, neighbours  # noqa
+from props.tftp_base import shrink as _shrink_session, neighbours as _neighbours_session  # noqa
+
+SCHED_ENV = "lifesched"
+
+
+def env_of(case):
+    return SCHED_ENV if case.get("kind") == "dispatch_sched" else B.env_of(case)
+
+
+def worker_setup(env):
+    if env == SCHED_ENV:
+        return None         # no network simulation in this worker: the deterministic scheduler runs the real receive loop
+    return B.worker_setup(env)
+
+
+def run_impl(case, env):
+    if case.get("kind") == "dispatch_sched":
+        import life_sched_adapter
+        return life_sched_adapter.run_case({k: v for k, v in case.items() if not k.startswith("_")})
+    return B.run_impl(case, env)
+
+
+def shrink(case):
+    if case.get("kind") == "dispatch_sched":
+        names = case["datagrams"]
+        base = {k: v for k, v in case.items() if k != "sweep"}
+        for i in range(len(names)):
+            if len(names) > 2:
+                yield dict(base, datagrams=names[:i] + names[i + 1:])
+        return
+    yield from _shrink_session(case)
+
+
+def neighbours(case, rng):
+    if case.get("kind") == "dispatch_sched":
+        return
+    yield from _neighbours_session(case, rng)
 
 ID = "C10"
 MODULE = "props.c10"
@@ -17,11 +53,14 @@ THEOREMS = [
 TRUSTED_BASE = T.TRUSTED_BASE
 ASSUMPTIONS = T.ASSUMPTIONS + [
     "'contexts are never mixed between concurrent requests' holds in the model by construction (no shared state); for the "
-    "code it is differential evidence only"]
+    "code it is differential evidence: concurrent transfers in the simulation, and the REAL receive loop of TftpServer under "
+    "the deterministic scheduler with read requests that arrive back to back (every single pre-emption, random schedules)"]
 RULE = ("handler lists of length 0..4 with arbitrary accept tables × request names × modes; with IPV6_PKTINFO (destination "
         "address of the datagram given) and without; bound addresses '::', '::1', '::ffff:127.0.0.1' and ports; the handler "
         "records every prepare_context/can_handle/handle call with all arguments; non-trivial = at least two handlers; "
-        "distinct by SHA-1 of the case")
+        "distinct by SHA-1 of the case; dispatch under the deterministic scheduler: 2-4 read requests from distinct "
+        "client ports delivered back to back to the real receive loop, each must be offered and handled exactly once with its "
+        "own file name, context and client address")
 BUDGET_S = {"quick": 60, "thorough": 600}
 
 _base = B.make_judge(required=[], project=lambda tr: [], need_request_port=True)
@@ -35,7 +74,41 @@ def expected_server_addr(case):
     return list(sn)
 
 
+def _judge_dispatch(case, obs):
+    """several read requests that arrived back to back, the REAL receive loop under the deterministic scheduler: every
+    request is offered to the handler once and handled once, with its own file name, its own context and the address of
+    its own client - under every schedule explored"""
+    outs = obs["sweep"] if "sweep" in obs else [obs]
+    names = case["datagrams"]
+    want_can = sorted(["can_handle", n, ["ctx", n]] for n in names)
+    want_handle = sorted(["handle", n, ["ctx", n], ["::1", 41000 + i]] for i, n in enumerate(names))
+    for o in outs:
+        sub = {"kind": "dispatch_sched", "threads": case["threads"], "datagrams": names, "preempt": o.get("preempt"),
+               "order": case.get("order")}
+        if o.get("timed_out"):
+            return Judgement(sub, True, False, {"infrastructure": "scheduler run timed out"}, "infra", False)
+        clause = None
+        if o.get("deadlock") or o.get("livelock"):
+            clause = "never_ends"
+        elif o.get("errors") or any(r != "ok" for rs in o["results"] for r in rs):
+            clause = "raised"
+        elif o.get("undelivered"):
+            clause = None       # the server was stopped before it read every request: nothing to say about the rest
+        if clause is None and not o.get("undelivered"):
+            got_can = sorted(h for h in o["handled"] if h[0] == "can_handle")
+            got_handle = sorted(h for h in o["handled"] if h[0] == "handle")
+            if got_can != want_can or got_handle != want_handle:
+                clause = "requests_mixed"
+        if clause:
+            return Judgement(sub, False, False, {"handled": o.get("handled"), "expected": want_handle,
+                                                 "errors": o.get("errors")}, "dispatch_sched", True, clause)
+    return Judgement(case, True, True, None, "dispatch_sched/" + ("sweep" if "sweep" in obs else "single"),
+                     len(names) >= 2)
+
+
 def model_requests(case, obs):
+    if case.get("kind") == "dispatch_sched":
+        return []
     reqs = B.model_requests(case, obs)
     r = {"op": "tftp.serveraddr", "sockname": case.get("sockname", ["::", 69, 0, 0])}
     if case.get("pktinfo", True) and case.get("dst"):
@@ -44,9 +117,22 @@ def model_requests(case, obs):
 
 
 def judge(case, obs, resps):
+    if case.get("kind") == "dispatch_sched":
+        if "harness_exception" in obs:
+            return Judgement(case, True, False, {"infrastructure": obs}, "infra", False)
+        return _judge_dispatch(case, obs)
     model_addr = resps[-1].get("ok")
     parts = B.parts_of(case, obs)
     js = [judge1(c, o, r, model_addr) for (c, o), r in zip(parts, resps[:-1])]
+    if len(parts) > 1 and all(j.spec_ok for j in js):
+        # several requests in flight: every request that the model hands to a handler is handled exactly once, with its
+        # own file name - whatever the order in which the calls were logged (contexts and metadata never mixed)
+        want = sorted(r.get("ok", {}).get("request", {}).get("filename", "") for r in resps[:-1]
+                      if r.get("ok", {}).get("request", {}).get("kind") == "transfer")
+        got = sorted(c[2] for c in obs.get("calls", []) if c[0] == "handle")
+        if want != got:
+            js.append(Judgement(case, False, False, {"handled_file_names": got, "requested_and_accepted": want},
+                                "multi", True, "requests_mixed"))
     bad = [j for j in js if not j.spec_ok] or [j for j in js if not j.agree]
     j = bad[0] if bad else js[0]
     j.case = case
@@ -93,7 +179,22 @@ SMALL = {"kind": "stream", "content": "6869", "caps": [], "size_known": True, "f
 ERR = {"kind": "tftp_error", "code": 2}
 
 
+def gen_dispatch_sched(rng, tier):
+    chunks = 4
+    progs = [["start", "pause", "pause", "pause", "pause", "stop"]]
+    for names in (["f0", "f1"], ["f0", "f1", "f2"], ["a", "a"]):
+        for k in range(chunks):
+            yield {"kind": "dispatch_sched", "threads": progs, "datagrams": names, "order": [0], "sweep": [k, chunks],
+                   "servers": 1 + len(names), "max_steps": 20000, "_meta": {"style": "dispatch-sched"}}
+    for i in range(30 if tier == "quick" else 600):
+        names = ["f%d" % j for j in range(rng.choice([2, 3, 4]))]
+        yield {"kind": "dispatch_sched", "threads": progs, "datagrams": names, "order": [0],
+               "preempt_frac": sorted([rng.random(), rng.randrange(1 + 1 + len(names))] for _ in range(rng.choice([1, 2, 3]))),
+               "max_steps": 20000, "_meta": {"style": "dispatch-sched"}}
+
+
 def gen(rng, tier, mult=1):
+    yield from gen_dispatch_sched(rng, tier)
     n = (1500 if tier == "quick" else 20000) * mult
     names = ["f", "g", "boot/x", "", "F"]
     for i in range(n):
